@@ -90,7 +90,7 @@ def report(property_id, violations, seed, tier):
             new.append((vid, v))
     for _s, (k, n) in sorted(known_hits.items()):
         print(f"KNOWN-FINDING: property={property_id} {k.get('what', '')} [{n} case(s)]")
-    rdir = os.path.join(treeenv.VERIF, "replays", property_id)
+    rdir = os.path.join(treeenv.OUT, "replays", property_id)
     for i, (vid, v) in enumerate(new):
         if i >= MAX_PRINTED:
             print(f"... {len(new) - MAX_PRINTED} further distinct violations not printed")
